@@ -20,6 +20,7 @@ ANCHORS = [
 
 def run(chk):
     repo = chk.repo
+    cm.schema(chk, repo, "C17")
     d1_export(chk, repo)
     d2_refusals(chk, repo)
     d3_reconstruction(chk, repo)
